@@ -103,27 +103,34 @@ def recover_events(ctx):
         pub = pgpy.PGPKey.from_blob(build.transferable_key(fk, [uid]))[0]
         sm = fk.secret_mpis()
         forms = [('usage 254 iterated', 254, 3), ('usage 254 salted', 254, 1), ('usage 254 simple', 254, 0), ('usage 255 iterated (16-bit checksum)', 255, 3),
-                 ('usage 255 simple', 255, 0), ('usage 254 iterated old-format header', 254, 3)]
+                 ('usage 255 simple', 255, 0), ('usage 254 iterated old-format header', 254, 3),
+                 # RFC 4880 5.5.3: any other usage value IS the cipher id; key = MD5 of the passphrase (simple S2K), 16-bit checksum. Not in the
+                 # property's must-read list: a reader may refuse such a key, but one it accepts is a protected key like the others
+                 ('legacy usage (the usage octet is the cipher id) AES-256', 9, -1), ('legacy usage (the usage octet is the cipher id) CAST5', 3, -1),
+                 ('legacy usage (the usage octet is the cipher id) AES-128', 7, -1)]
         for fi, (label, usage, spec) in enumerate(forms):
             sym, hid = [(9, 8), (7, 2), (3, 10)][fi % 3]
+            if spec == -1:
+                sym, hid = usage, 1
             kl, bs = enc.SYM[sym][2], enc.SYM[sym][3]
-            salt = os.urandom(8) if spec else b''
+            salt = os.urandom(8) if spec > 0 else b''
             c = [0, 16, 96][fi % 3]
             iv = os.urandom(bs)
             pw = 'foreign pass ✓'.encode('utf-8')
-            key = enc.s2k_derive(spec, hid, salt, c, pw, kl)
+            key = enc.s2k_derive(max(spec, 0), hid, salt, c, pw, kl)
             tail = hashlib.sha1(sm).digest() if usage == 254 else struct.pack('>H', sum(sm) & 0xFFFF)
             ct = enc.cfb(sym, key, sm + tail, False, iv=iv)
-            s2k = bytes([usage, sym, spec, hid]) + salt + (bytes([c]) if spec == 3 else b'') + iv
+            s2k = bytes([usage]) + iv if spec == -1 else bytes([usage, sym, spec, hid]) + salt + (bytes([c]) if spec == 3 else b'') + iv
             body = fk.pub_body + s2k + ct
             fmt = 'old' if 'old-format' in label else 'new'
             kblob = build.pkt(5, body, fmt=fmt) + b''.join(r for t, b, r in build.read_packets(build.transferable_key(fk, [uid]))[1:])
             e = {'k': 'foreign-secret', 'label': '%s %s cipher=%d hash=%d' % (kind, label, sym, hid), 'body': octets(body), 'publen': len(fk.pub_body),
-                 'pt': octets(sm + tail), 'orig_secret': octets(sm), 'usage': usage}
+                 'pt': octets(sm + tail), 'orig_secret': octets(sm), 'usage': usage, 'loaded': False}
             with warnings.catch_warnings():
                 warnings.simplefilter('ignore')
                 try:
                     k = pgpy.PGPKey.from_blob(kblob)[0]
+                    e['loaded'] = True
                     e['loaded_protected'] = bool(k.is_protected and not k.is_unlocked)
                     e['wrong_refused'] = True
                     for wrong in ('wrong pass', 'foreign pass ✓\n', 'foreign pass ✓ ', 'foreign pass \u2713'[:-1], ' foreign pass ✓', 'Foreign pass ✓', 'foreign pass ✓\r\n'):
